@@ -40,65 +40,63 @@ theorem C18_views_owned (cx : Codecs) (debug : Bool) :
         · cases h
         · rename_i off pm rest _
           split at h
-          · cases h
-          · split at h
-            · apply ihf _ _ _ _ _ _ _ _ _ hr hl _ hn hb h
-              intro x hx
-              split at hx
-              · rcases List.mem_append.mp hx with hx | hx
-                · exact ha x hx
-                · simp at hx; subst hx; exact Or.inl rfl
+          · apply ihf _ _ _ _ _ _ _ _ _ hr hl _ hn hb h
+            intro x hx
+            split at hx
+            · rcases List.mem_append.mp hx with hx | hx
               · exact ha x hx
-            · split at h
-              · rename_i r' _; subst h; rename_i hx; revert hx
+              · simp at hx; subst hx; exact Or.inl rfl
+            · exact ha x hx
+          · split at h
+            · cases h
+            · rename_i d
+              split at h
+              · rename_i r' hx; subst h; revert hx
                 unfold innerOf
                 repeat' split
                 all_goals (intro hx; cases hx)
               · rename_i v _
                 split at h
-                · cases h
-                · rename_i d
-                  split at h
-                  · rename_i inner hin
-                    -- the inner set: decoded from the fresh buffer `next`, identities from `next + 1`
-                    obtain ⟨⟨hi1, hi2, hi3, hi4⟩, hi5⟩ := ihd d (Nat.lt_succ_self _) (v.length + 1) v next (next + 1) req validate [] [] (next + 1) inner
-                      (Nat.lt_succ_self _) (Nat.le_refl _) (by intro x hx; cases hx) List.nodup_nil (by intro b hb'; cases hb') hin
-                    have hnext : next < inner.next := by omega
-                    obtain ⟨hres, hle⟩ := ihf rest raw inner.next req validate (acc ++ inner.msgs) (owned ++ [next] ++ inner.owned) lo r hr (by omega)
-                      (by
-                        intro x hx
-                        rcases List.mem_append.mp hx with hx | hx
-                        · rcases ha x hx with h1 | h1
-                          · exact Or.inl h1
-                          · exact Or.inr (by simp [h1])
-                        · rcases hi1 x hx with h1 | h1
-                          · exact Or.inr (by simp [h1])
-                          · exact Or.inr (by simp [h1]))
-                      (by
-                        rw [List.nodup_append]
-                        refine ⟨?_, hi2, ?_⟩
-                        · rw [List.nodup_append]
-                          refine ⟨hn, by simp, ?_⟩
-                          intro a ha' b hb' heq
-                          simp at hb'; subst hb'; subst heq
-                          have := (hb a ha').2; omega
-                        · intro a ha' b hb' heq
-                          subst heq
-                          have h3 := (hi3 a hb').1
-                          rcases List.mem_append.mp ha' with h4 | h4
-                          · have := (hb a h4).2; omega
-                          · simp at h4; omega)
-                      (by
-                        intro b hb'
-                        rcases List.mem_append.mp hb' with h4 | h4
-                        · rcases List.mem_append.mp h4 with h5 | h5
-                          · have := hb b h5; omega
-                          · simp at h5; omega
-                        · have := hi3 b h4; omega)
-                      h
-                    exact ⟨hres, by omega⟩
-                  · rename_i hne
-                    exact absurd h.symm (fun h' => hne r h'.symm)
+                · rename_i inner hin
+                  -- the inner set: decoded from the fresh buffer `next`, identities from `next + 1`
+                  obtain ⟨⟨hi1, hi2, hi3, hi4⟩, hi5⟩ := ihd d (Nat.lt_succ_self _) (v.length + 1) v next (next + 1) req validate [] [] (next + 1) inner
+                    (Nat.lt_succ_self _) (Nat.le_refl _) (by intro x hx; cases hx) List.nodup_nil (by intro b hb'; cases hb') hin
+                  have hnext : next < inner.next := by omega
+                  obtain ⟨hres, hle⟩ := ihf rest raw inner.next req validate (acc ++ inner.msgs) (owned ++ [next] ++ inner.owned) lo r hr (by omega)
+                    (by
+                      intro x hx
+                      rcases List.mem_append.mp hx with hx | hx
+                      · rcases ha x hx with h1 | h1
+                        · exact Or.inl h1
+                        · exact Or.inr (by simp [h1])
+                      · rcases hi1 x hx with h1 | h1
+                        · exact Or.inr (by simp [h1])
+                        · exact Or.inr (by simp [h1]))
+                    (by
+                      rw [List.nodup_append]
+                      refine ⟨?_, hi2, ?_⟩
+                      · rw [List.nodup_append]
+                        refine ⟨hn, by simp, ?_⟩
+                        intro a ha' b hb' heq
+                        simp at hb'; subst hb'; subst heq
+                        have := (hb a ha').2; omega
+                      · intro a ha' b hb' heq
+                        subst heq
+                        have h3 := (hi3 a hb').1
+                        rcases List.mem_append.mp ha' with h4 | h4
+                        · have := (hb a h4).2; omega
+                        · simp at h4; omega)
+                    (by
+                      intro b hb'
+                      rcases List.mem_append.mp hb' with h4 | h4
+                      · rcases List.mem_append.mp h4 with h5 | h5
+                        · have := hb b h5; omega
+                        · simp at h5; omega
+                      · have := hi3 b h4; omega)
+                    h
+                  exact ⟨hres, by omega⟩
+                · rename_i hne
+                  exact absurd h.symm (fun h' => hne r h'.symm)
 
 /-- **top level**: decoding a partition's set (buffer identity 0, fresh identities from 1): every exposed message points
     into the response's own buffer or into a buffer the set keeps alive, and no buffer is kept twice -/
@@ -151,16 +149,17 @@ theorem C18_erase (cx : Codecs) (debug : Bool) :
         | ok x =>
           obtain ⟨⟨off, pm⟩, rest⟩ := x
           simp only []
-          by_cases hd : (debug = true ∧ pm.trailing ≠ 0)
-          · simp [hd, erase]
-          · simp only [hd, if_false]
-            generalize hcv : toU 1 pm.attr % 8 = c
-            by_cases h0 : c = 0
-            · simp only [h0, if_true]
-              rw [ihf]
-              congr 1
-              split <;> simp
-            · simp only [h0, if_false]
+          generalize hcv : toU 1 pm.attr % 8 = c
+          by_cases h0 : c = 0
+          · simp only [h0, if_true]
+            rw [ihf]
+            congr 1
+            split <;> simp
+          · simp only [h0, if_false]
+            cases depth with
+            | zero => simp [erase]
+            | succ d =>
+              simp only []
               unfold innerOf
               by_cases h1 : c = 1
               · simp only [h1, if_true]
@@ -169,30 +168,26 @@ theorem C18_erase (cx : Codecs) (debug : Bool) :
                 | some v =>
                   -- the same nested decode on both sides
                   simp only []
-                  cases depth with
-                  | zero => simp [erase]
-                  | succ d =>
+                  have hin := ihd d (Nat.lt_succ_self _) (v.length + 1) v next (next + 1) req validate [] []
+                  simp only [List.map_nil] at hin
+                  cases hr : fromSliceO cx debug d (v.length + 1) v next (next + 1) req validate [] [] with
+                  | ok inner =>
+                    rw [hr] at hin
+                    simp only [erase] at hin
+                    rw [← hin]
                     simp only []
-                    have hin := ihd d (Nat.lt_succ_self _) (v.length + 1) v next (next + 1) req validate [] []
-                    simp only [List.map_nil] at hin
-                    cases hr : fromSliceO cx debug d (v.length + 1) v next (next + 1) req validate [] [] with
-                    | ok inner =>
-                      rw [hr] at hin
-                      simp only [erase] at hin
-                      rw [← hin]
-                      simp only []
-                      rw [ihf]
-                      simp
-                    | err e =>
-                      rw [hr] at hin
-                      simp only [erase] at hin
-                      rw [← hin]
-                      simp [erase]
-                    | panic p =>
-                      rw [hr] at hin
-                      simp only [erase] at hin
-                      rw [← hin]
-                      simp [erase]
+                    rw [ihf]
+                    simp
+                  | err e =>
+                    rw [hr] at hin
+                    simp only [erase] at hin
+                    rw [← hin]
+                    simp [erase]
+                  | panic p =>
+                    rw [hr] at hin
+                    simp only [erase] at hin
+                    rw [← hin]
+                    simp [erase]
               · simp only [h1, if_false]
                 by_cases h2 : c = 2
                 · simp only [h2, if_true]
@@ -206,30 +201,26 @@ theorem C18_erase (cx : Codecs) (debug : Bool) :
                     | ok v =>
                       -- the same nested decode on both sides
                       simp only []
-                      cases depth with
-                      | zero => simp [erase]
-                      | succ d =>
+                      have hin := ihd d (Nat.lt_succ_self _) (v.length + 1) v next (next + 1) req validate [] []
+                      simp only [List.map_nil] at hin
+                      cases hr : fromSliceO cx debug d (v.length + 1) v next (next + 1) req validate [] [] with
+                      | ok inner =>
+                        rw [hr] at hin
+                        simp only [erase] at hin
+                        rw [← hin]
                         simp only []
-                        have hin := ihd d (Nat.lt_succ_self _) (v.length + 1) v next (next + 1) req validate [] []
-                        simp only [List.map_nil] at hin
-                        cases hr : fromSliceO cx debug d (v.length + 1) v next (next + 1) req validate [] [] with
-                        | ok inner =>
-                          rw [hr] at hin
-                          simp only [erase] at hin
-                          rw [← hin]
-                          simp only []
-                          rw [ihf]
-                          simp
-                        | err e =>
-                          rw [hr] at hin
-                          simp only [erase] at hin
-                          rw [← hin]
-                          simp [erase]
-                        | panic p =>
-                          rw [hr] at hin
-                          simp only [erase] at hin
-                          rw [← hin]
-                          simp [erase]
+                        rw [ihf]
+                        simp
+                      | err e =>
+                        rw [hr] at hin
+                        simp only [erase] at hin
+                        rw [← hin]
+                        simp [erase]
+                      | panic p =>
+                        rw [hr] at hin
+                        simp only [erase] at hin
+                        rw [← hin]
+                        simp [erase]
                 · simp [h2, erase]
 end Kafka.Props.C18
 
